@@ -25,6 +25,21 @@ def make(props, n_prim_q=140, n_op_q=25, n_intr_q=0, n_prim_t=4000, n_op_t=800, 
             res["coverage"].update(x.get("coverage", {}))
         return res
 
+    def shard(ctx):
+        """the schedule-controlled part (cooperative scheduler), for the extra parallel shards of the thorough tier"""
+        q = ctx.tier == "quick"
+        res = ee.explore_engine(ctx, props, n_prim_q if q else n_prim_t, n_op_q if q else n_op_t, n_intr_q if q else n_intr_t)
+        if not res["violations"] and not res["disagreements"]:
+            u = ue.explore_user(ctx, props, *(user_q if q else user_t))
+            res["violations"] += u["violations"]
+            res["disagreements"] += u["disagreements"]
+            for k, v in u["coverage"].items():
+                res["coverage"]["user_" + k] = v
+            res["coverage"]["traces_validated_against_impl"] += u["coverage"]["engine_traces_validated"]
+        return res
+
+    explore.shard = shard
+
     def search(ctx, broken):
         """Something no longer checks: look harder for a concrete failing schedule (opcode-level preemption first)."""
         class C:
